@@ -13,8 +13,10 @@ open(sys.argv[1] + "/Scenario.tla", "w").write(render_scenario_tla(corpus.cs_of(
 PY
 cd "$T"
 for m in *.tla; do
-  case "$m" in Scenario.tla) continue;; esac
+  case "$m" in Scenario.tla) continue;; NASimProof.tla) continue;; esac      # NASimProof: parsed and checked by tlapm below
   java -cp /opt/veriftools/tla/tla2tools.jar:/opt/veriftools/tla/CommunityModules-deps.jar tla2sany.SANY "$m" > sany.out 2>&1 || { cat sany.out; echo "SANY failed on $m"; exit 1; }
   if grep -q "Could not\|\*\*\* Errors\|Fatal" sany.out; then cat sany.out; echo "SANY failed on $m"; exit 1; fi
 done
-echo "setup ok: $(ls *.tla | wc -l) modules parsed"
+timeout 600 tlapm --cleanfp NASimProof.tla > tlapm.out 2>&1 || true
+grep -q "obligations proved" tlapm.out || { tail -20 tlapm.out; echo "tlapm failed on NASimProof.tla"; exit 1; }
+echo "setup ok: $(ls *.tla | wc -l) modules parsed, NASimProof.tla: $(grep -o 'All [0-9]* obligations proved' tlapm.out)"
